@@ -260,7 +260,9 @@ func c20run(script string, consumerStopsOnCancel bool, withCancel bool) (cfg fun
 	return
 }
 
-func VerifC20(c *drv.Ctx) {
+func init() { drv.Register("c20", verifC20) }
+
+func verifC20(c *drv.Ctx) {
 	alpha, maxLen, maxLenD1 := "FPATRUEBC", 5, 3
 	if c.Thorough() {
 		alpha, maxLen, maxLenD1 = "FPATRUEBCXYar", 5, 4
